@@ -49,6 +49,8 @@ def check(rep: Report, ctx: Ctx) -> None:
     r55(rep, ctx)
     r56(rep, ctx)
     r57(rep, ctx)
+    r58(rep, ctx)
+    r59(rep, ctx)
 
 
 # --------------------------------------------------------------------------
@@ -628,3 +630,109 @@ def r57(rep: Report, ctx: Ctx) -> None:
                                                  if p == "sub_graph" else "")))
     if not sites:
         raise AnalysisError("no copy site of a PUML event node found")
+
+
+def r58(rep: Report, ctx: Ctx) -> None:
+    rep.rule("R5.8", "path separators are inserted between the branches of "
+             "a block, indexed by the branch's position", 3)
+    fi = ctx.func("PUMLGraph._order_nodes_from_dfs_successors_dict")
+    loops = [l for l in ast.walk(fi.node) if isinstance(l, ast.For)
+             and isinstance(l.iter, ast.Call) and call_name(l.iter)
+             == "enumerate"]
+    if len(loops) != 1 or not isinstance(loops[0].target, ast.Tuple):
+        raise AnalysisError(f"{fi.qualname}: successor enumeration not found")
+    loop = loops[0]
+    idx, succ = (unparse(e) for e in loop.target.elts)
+    src = loop.iter.args[0]
+    inner = src.args[0] if isinstance(src, ast.Call) and call_name(src) in (
+        "reversed", "list", "sorted") and src.args else src
+    ok = unparse(inner) == f"dfs_successor_dict[{fi.params()[0]}]" and len(
+        loop.iter.args) == 1 and not loop.iter.keywords
+    rep.ob("R5.8", "every successor of the node is visited, counted from 0",
+           ok, fi=fi, node=loop, detail=f"for {idx}, {succ} in "
+           f"{unparse(loop.iter)[:70]}")
+    lookups = [c for c in ast.walk(loop) if isinstance(c, ast.Call)
+               and isinstance(c.func, ast.Subscript)
+               and unparse(c.func.value) == "OPERATOR_PATH_FUNCTION_MAP"]
+    ok = len(lookups) == 1 and [unparse(a) for a in lookups[0].args] == [idx]
+    rep.ob("R5.8", "the separator is chosen by the branch index", ok, fi=fi,
+           node=lookups[0] if lookups else loop,
+           detail=unparse(lookups[0])[:90] if lookups else "<missing>")
+    rec = calls_in(ctx, fi, fi)
+    ok = len(rec) == 1 and unparse(rec[0].args[0]) == succ and not enclosing(
+        loop, rec[0], (ast.If,)) and any(
+        isinstance(c, ast.Call) and call_name(c) == "extend"
+        and any(x is rec[0] for x in ast.walk(c)) for c in ast.walk(loop))
+    rep.ob("R5.8", "every successor's sub-order is appended after its "
+           "separator", ok, fi=fi, node=rec[0] if rec else loop,
+           detail="ordered_nodes.extend(recurse(successor)) unconditionally, "
+                  "after the optional path node")
+    apps = [c for c in ast.walk(loop) if isinstance(c, ast.Call)
+            and call_name(c) == "append"]
+    ok = len(apps) == 1 and rec and apps[0].lineno < rec[0].lineno
+    rep.ob("R5.8", "the separator precedes the branch", bool(ok), fi=fi,
+           node=apps[0] if apps else loop,
+           detail="ordered_nodes.append(path_node) before the recursion")
+
+
+def r59(rep: Report, ctx: Ctx) -> None:
+    rep.rule("R5.9", "every opened logic block gets its end node connected",
+             4)
+    opener = ctx.func("handle_logic_node_cases")
+    pair = [c for c in ast.walk(opener.node) if isinstance(c, ast.Call)
+            and call_name(c) == "create_operator_node_pair"]
+    holder = [c for c in ast.walk(opener.node) if isinstance(c, ast.Call)
+              and call_name(c) == "LogicBlockHolder"]
+    ok = False
+    if len(pair) == 1 and len(holder) == 1:
+        asg = enclosing(opener.node, pair[0], (ast.Assign,))
+        names = [unparse(e) for e in asg[-1].targets[0].elts] if asg and \
+            isinstance(asg[-1].targets[0], ast.Tuple) else []
+        ok = len(names) == 2 and [unparse(a) for a in holder[0].args[:2]] \
+            == names
+        edge = [c for c in ast.walk(opener.node) if isinstance(c, ast.Call)
+                and call_name(c) == "add_puml_edge"]
+        ok = ok and len(edge) == 1 and unparse(edge[0].args[1]) == names[0] \
+            and any(isinstance(c, ast.Call) and call_name(c) == "append"
+                    and unparse(c.func.value) == "logic_list"
+                    for c in ast.walk(opener.node))
+    rep.ob("R5.9", "a block is opened as (start, end), pushed, and entered "
+           "through its start node", ok, fi=opener,
+           node=pair[0] if pair else opener.node,
+           detail="start, end = create_operator_node_pair(..); "
+                  "logic_list.append(LogicBlockHolder(start, end, ..)); "
+                  "add_puml_edge(previous, start)")
+    walk_mod = ctx.index.module("walk_puml_logic_graph")
+    pops = 0
+    for f in walk_mod.functions.values():
+        pm = ctx.index.parents(f)
+        for c in ast.walk(f.node):
+            if isinstance(c, ast.Call) and call_name(c) == "pop" and unparse(
+                    c.func.value) == "logic_list":
+                pops += 1
+                par = pm.get(c)
+                ok = isinstance(par, ast.Attribute) and par.attr == "end_node"
+                st = enclosing(f.node, c, (ast.Assign, ast.AnnAssign))
+                tgt = unparse(getattr(st[-1], "target", None)
+                              or st[-1].targets[0]) if st else ""
+                rep.ob("R5.9", f"{f.short}: a closed block continues from "
+                       "its end node", ok and tgt.startswith(
+                           "previous_puml_node"), fi=f, node=c,
+                       detail=f"{tgt} = logic_list.pop().end_node")
+    if pops < 2:
+        raise AnalysisError("walker: block-closing sites not found")
+    closer = ctx.func("handle_reach_logic_merge_point")
+    cfg = ctx.cfg(closer)
+    ends = [c for c in ast.walk(closer.node) if isinstance(c, ast.Call)
+            and call_name(c) == "add_puml_edge" and len(c.args) == 2
+            and unparse(c.args[1]) == "logic_list[-1].end_node"]
+    path_pop = [c for c in ast.walk(closer.node) if isinstance(c, ast.Call)
+                and call_name(c) == "set_path_node"]
+    ok = len(ends) == 1 and len(path_pop) == 1 and cfg.dominates(
+        cfg.container(ends[0]), cfg.container(path_pop[0])) and unparse(
+        ends[0].args[0]) == "previous_puml_node"
+    rep.ob("R5.9", "a finished path is joined to the block's end node before "
+           "the next path starts", ok, fi=closer,
+           node=ends[0] if ends else closer.node,
+           detail="add_puml_edge(previous_puml_node, logic_list[-1].end_node)"
+                  " dominates set_path_node(pop=True)")
